@@ -200,21 +200,9 @@ def crosshair_period_task():
 
         rec = Recorder(PROP, task, [ANN._initialize_annealing])
         res = run_crosshair(CROSSHAIR_FILE, per_condition_timeout=40)
-        for fn, verdict, detail in res:
-            rec.obligations += 1
-            if verdict == "confirmed":
-                rec.discharged += 1
-            elif verdict == "counterexample":
-                script = f"sys.path.insert(0, '/verif/crosshair_harness')\nimport c19_period as H\ntry:\n    r = H.{detail}\nexcept AssertionError as e:\n    print('postcondition violated', e); sys.exit(1)\nprint(r); sys.exit(0 if r else 1)\n"
-                rec.violation_from_script(fn, "C19:annealing-period-zero", script, what=f"CrossHair counterexample: {detail}")
-            elif verdict == "not_confirmed":
-                # CrossHair searched its budget without finding a counterexample but could not exhaust the paths: the same
-                # claim is decided by `period_task` below; recorded as best effort
-                rec.obligations -= 1
-                rec.best_effort_inconclusive.append(f"{task}:{fn}: not confirmed within the budget (no counterexample found)")
-            else:
-                rec.inconclusive.append(f"{task}:{fn}: {verdict} {detail[:100]}")
-        rec.sample({"crosshair": [(f, v) for f, v, _ in res]})
+        from vcheck.crosshair_util import record
+
+        record(rec, task, res, CROSSHAIR_FILE, key_of=lambda fn, call: "C19:annealing-period-zero")
         return rec.result()
 
     return guarded(PROP, task, body)
